@@ -156,6 +156,8 @@ class Rules:
             self.r_offsets(I, seg)
             self.r_spell(I, seg)
             self.r_lookbehind_datalines(I, seg)
+            self.r_groups(I, seg)
+            self.r_preconsume(I, seg)
 
     # -- R-NONEMPTY and R-ERR-PAIR ---------------------------------------------------------------
     MAY_BE_EMPTY = {"EOF", "MacroSep", "MacroStringEmpty", "SEMI", "LPAREN", "RPAREN", "ASSIGN", "COMMA", "FSLASH",
@@ -577,6 +579,68 @@ class Rules:
                  "token retyped through last_token_info%s_mut() after a type test through the same accessor" % ("_on_default_channel" if acc == "default" else "") if guarded else
                  "the last token (accessor '%s') is retyped, but the type test that guards it looked at a different token "
                  "(other accessor) or is missing: hidden/comment tokens in between make them differ" % acc)
+
+    # -- R-PRECONSUME: a dispatcher's pre-consumed first character is one the scanner would treat as plain text --
+    def r_preconsume(self, I, seg):
+        for e in seg.events[seg.start:]:
+            if e.kind != "preconsume_probe" or e.fn != seg.name:
+                continue
+            v = e.d.get("verdict")
+            callee = short_fn(e.d.get("callee") or "?")
+            key = "%s->%s" % (self.sites.key(e.d["first"]), callee)
+            if v == "skip":
+                self.bump("R-PRECONSUME", "skipped", key)
+                continue
+            self.bump("R-PRECONSUME", "probes", key)
+            ok = v == "ok"
+            I.ob("R-PRECONSUME", key, ok, self.sites.where(e.d["first"]),
+                 "%s consumes the first character itself before %s: %s" % (short_fn(seg.name), callee, e.d.get("why")) if ok else
+                 "%s consumes the first character of the token itself and then calls %s, but from the token start %s; "
+                 "conditions: %s" % (short_fn(seg.name), callee, e.d.get("why"), "; ".join(seg.st.conds[-4:])[:240]))
+
+    # -- R-GROUP: tokens that only exist as a group are emitted together, in one step ---------------------
+    def r_groups(self, I, seg):
+        st = seg.st
+        evs = seg.events
+        fn = short_fn(seg.name)
+        own = [e for e in evs[seg.start:] if e.kind == "emit" and e.d.get("owner") == seg.name]
+        if fn == "lex_datalines" and seg.out.kind == "val" and own:
+            types = []
+            for e in own:
+                ts = variant_set(I, st, e.d["type"]) or {"?"}
+                types.append("/".join(sorted(ts)))
+            ok = types == ["DatalinesStart", "DatalinesData", "SEMI"]
+            self.bump("R-GROUP", "groups", "datalines")
+            I.ob("R-GROUP", "lex_datalines|start-data-terminator", ok, self.sites.where(own[0]),
+                 "a datalines start is emitted together with its data token and its terminator" if ok else
+                 "lex_datalines emits %s on a path: a datalines start must be followed immediately by its data token "
+                 "and its (possibly virtual) terminator; conditions: %s" % (types, "; ".join(st.conds[-4:])[:240]))
+        for idx in range(seg.start, len(evs)):
+            e = evs[idx]
+            if e.kind != "lasttok_write" or e.d.get("owner") != seg.name or e.d.get("field") != "token_type":
+                continue
+            vs = variant_set(I, st, e.d.get("value"))
+            if vs != {"MacroLabel"}:
+                continue
+            nxt = None
+            consumed = 0
+            for x in evs[idx + 1:]:
+                if x.kind == "consume":
+                    consumed += 1
+                if x.kind == "emit":
+                    nxt = x
+                    break
+            ok = False
+            why = "no token is emitted after the label in the same step"
+            if nxt is not None:
+                ts = variant_set(I, st, nxt.d["type"]) or set()
+                cs = variant_set(I, st, nxt.d["channel"]) or set()
+                ok = ts == {"COLON"} and cs == {"HIDDEN"} and consumed == 1
+                why = "next token is %s on %s after %d consumed character(s)" % (sorted(ts), sorted(cs), consumed)
+            self.bump("R-GROUP", "groups", "label")
+            I.ob("R-GROUP", "%s|label-colon" % fn, ok, self.sites.where(e),
+                 "a macro label is followed by its hidden colon" if ok else
+                 "the token is retyped to MacroLabel but not followed by its one-character hidden COLON (%s)" % why)
 
     # -- R-NESTING-FLUSH ------------------------------------------------------------------------
     def r_nesting_flush(self, I, seg):
@@ -1160,10 +1224,65 @@ def path_rules(fx, I, R, mode, ckpt, outs):
            "lex_token path in mode %s (handler %s, first arm %s) %s" % (
                mode, handler, arm, "makes progress" if (consumed or stack_changed) else
                "neither consumes input nor changes the mode stack: the main loop spins (debug: 9008, release: hang); conditions: %s" % "; ".join(st.conds[-6:])[:300]))
+        orphan_rule(I, R, ob, mode, o)
     reg = explore_regions(I, seeds, ob)
     obs[("_meta", "regions|" + mode)] = {"rule": "_meta", "key": "regions|" + mode, "ok": True, "site": "",
                                           "detail": json.dumps(reg), "n": 1}
     return obs
+
+
+def slice_ends(k):
+    """Position labels (a, b) of `is_empty(str_slice(<source>, a, b))` given the fact key."""
+    import re
+    r = repr(k)
+    if "str_slice" not in r:
+        return None
+    ps = re.findall(r"\('X', 'remaining_len', \('C', 'str', 'main'\), \('C', 'int', (\d+)\)\)", r)
+    if len(ps) == 2:
+        return int(ps[0]), int(ps[1])
+    return None
+
+
+def orphan_rule(I, R, ob, mode, o):
+    """R-ORPHAN: every character consumed in a lex_token step belongs to a token emitted in that step (its start
+    offset is at or before the character).  A token's text runs up to the next token's start, and the next step
+    re-anchors the token start at the cursor, so a character consumed without such a token silently becomes part
+    of whatever token precedes it."""
+    from . import lea_prims
+    st = o.st
+    open_ = []   # unclaimed consume events
+    # position equalities learnt on the path: an empty source slice [a, b) means a == b
+    same = {}
+    for k, v in st.bfacts.items():
+        if v is True and isinstance(k, tuple) and "is_empty" in repr(k[:2]) and "str_slice" in repr(k):
+            ab = slice_ends(k)
+            if ab and ab[0] is not None and ab[1] is not None:
+                same[ab[1]] = min(ab[0], same.get(ab[1], ab[0]))
+    for e in st.events:
+        if e.kind == "consume":
+            open_.append(e)
+        elif e.kind == "emit":
+            sn = lea_prims.snap_of(e.d.get("byte"))
+            if sn is None:
+                open_ = []      # unknown start: cannot attribute, stay silent
+            else:
+                p0 = min(sn[2], same.get(sn[2], sn[2]))
+                open_ = [c for c in open_ if c.d.get("pos", 0) < p0]
+        elif e.kind == "cursor_restore":
+            tp = e.d.get("to_pos")
+            open_ = [] if tp is None else [c for c in open_ if c.d.get("pos", 0) < tp]
+        elif e.kind == "lookbehind_mut":
+            open_ = []      # the last token is re-typed: what was consumed extends it by design (R-RETYPE-GUARD)
+    seen = set()
+    for c in open_:
+        key = "%s|%s" % (mode, R.sites.key(c))
+        if key in seen:
+            continue
+        seen.add(key)
+        ob("R-ORPHAN", key, False, R.sites.where(c),
+           "mode %s: a character consumed here is not covered by any token emitted in the same step (it is appended "
+           "to the text of the previous token); conditions: %s" % (mode, "; ".join(st.conds[-6:])[:300]))
+    ob("R-ORPHAN", "%s|paths" % mode, True, "", "every consumed character is covered by a token of its step")
 
 
 def depth_guard_rule(I, ob, mode, o):
@@ -1380,3 +1499,122 @@ def finalize_rules(fx, I, R, mode, outs):
                        "finalize_lexing pushes mode %r while unwinding" % (m,))
         ob("R-FINALIZE-ONCE", "finalize_lexing|%s|iteration" % mode, True, "", "unwinding %s pops exactly once per iteration" % mode)
     return obs
+
+
+# -- R-WS-ORDER: whitespace-blind modes are entered behind a whitespace skipper -----------------------------------
+_WS_SAMPLES = [" ", "\t", "\n", "\r", "\x0c", "\u00a0"]
+
+
+def _clean_at(st, strm, pos):
+    """Is the character at this position provably not whitespace and not the start of a /* comment */ ?"""
+    from . import lea_prims
+    if lea_prims.eof_known(st, strm, pos) is True:
+        return True
+    cf = st.cs.get(("LA", strm, pos))
+    if cf is None or any(cf.possible(c) for c in _WS_SAMPLES):
+        return False
+    if cf.possible("/"):
+        cf1 = st.cs.get(("LA", strm, pos + 1))
+        if cf1 is None or cf1.possible("*"):
+            return False
+    return True
+
+
+def ws_summary(I, mode, nbelow, outs):
+    """Per-mode summary for R-WS-ORDER:
+    blind   - some step gives up (pops / reports / pushes other work) at zero consumption on a character that may be
+              whitespace, without delegating to the whitespace skipper;
+    exit    - how the mode leaves the stack: 'clean' (next char provably not blank), 'inherit' (left at zero
+              consumption: next char is the one it was entered with), 'unclean' (left after consuming), 'none';
+    runs    - maximal push sequences (bottom..top) with the function of each push and whether the character after
+              the step is provably not blank."""
+    from . import lea_prims
+    blind = []
+    exits = set()
+    runs = {}
+    for o in outs:
+        if o.kind != "ret":
+            continue
+        st = o.st
+        evs = st.events
+        strm = I.stream_of(st, "main")
+        consumed = any(e.kind == "consume" for e in evs)
+        pos = st.cursors["main"].pos
+        topv = st.stack[-1].variant if st.stack and isinstance(st.stack[-1], Enum) else None
+        if (not consumed and lea_prims.eof_known(st, strm, 0) is not True and not _clean_at(st, strm, 0)
+                and any(e.kind in ("pop", "push", "emit", "error") for e in evs) and topv != "WsOrCStyleCommentOnly"):
+            if len(blind) < 3:
+                blind.append("; ".join(st.conds[-3:])[:200])
+            elif len(blind) == 3:
+                blind.append("...")
+        if len(st.stack) == nbelow and st.base == 0:
+            if _clean_at(st, strm, pos):
+                exits.add("clean")
+            elif not consumed:
+                exits.add("inherit")
+            else:
+                exits.add("unclean")
+        run = []
+        popped_entry = False
+        for e in evs:
+            if e.kind == "push":
+                m = e.d["mode"]
+                v = m.variant if isinstance(m, Enum) else "?"
+                if not run and not popped_entry:
+                    run.append(("^" + mode, "-", ""))
+                run.append((v, short_fn(e.d.get("owner") or e.fn or "?"), F.file_line(e.d.get("osite") or e.site or "?")))
+            elif e.kind == "pop":
+                if len(run) > 1:
+                    run.pop()
+                else:
+                    popped_entry = True
+                    run = []
+            elif e.kind in ("stack_insert", "stack_truncate", "stack_replaced"):
+                run = []
+                popped_entry = True
+        if len(run) >= 2:
+            k = tuple((a, b) for a, b, c in run)
+            tc = _clean_at(st, strm, pos)
+            if k not in runs or (runs[k]["top_clean"] and not tc):
+                runs[k] = {"run": [list(x) for x in run], "top_clean": tc}
+    ex = "unclean" if "unclean" in exits else "inherit" if "inherit" in exits else "clean" if exits else "none"
+    return {"mode": mode, "blind": blind, "exit": ex, "runs": list(runs.values())}
+
+
+def ws_order_obs(summaries, exempt):
+    """Join the per-mode summaries: a blind mode must be entered on a provably non-blank character."""
+    blind = {s["mode"]: s["blind"] for s in summaries}
+    ex = {s["mode"]: s["exit"] for s in summaries}
+    obs = {}
+    nruns = 0
+    for s in summaries:
+        for r in s["runs"]:
+            run = r["run"]
+            nruns += 1
+            ent = [None] * len(run)
+            ent[-1] = r["top_clean"]
+            for i in range(len(run) - 2, -1, -1):
+                e = ex.get(run[i + 1][0], "none")
+                ent[i] = True if e in ("clean", "none") else ent[i + 1] if e == "inherit" else False
+            for i, (m, fn, site) in enumerate(run):
+                mm = m.lstrip("^")
+                if not blind.get(mm):
+                    continue
+                above = run[i + 1][0] if i + 1 < len(run) else "<next input>"
+                where_fn = fn if fn != "-" else (run[i + 1][1] if i + 1 < len(run) else "-")
+                where_site = site or (run[i + 1][2] if i + 1 < len(run) else "")
+                key = "%s<-%s|%s" % (mm, above, where_fn)
+                ok = bool(ent[i])
+                detail = "mode %s is entered behind %s, which leaves a non-blank character" % (mm, above)
+                if not ok and mm in exempt:
+                    ok = True
+                    detail = "audited: whitespace terminates %s by design (%s)" % (mm, exempt[mm])
+                if not ok:
+                    detail = ("mode %s gives up at zero consumption on a character that may be whitespace (%s), and here it is "
+                              "entered right after %s, which can leave whitespace or a comment in front of it: insignificant "
+                              "blanks change the outcome; push sequence (bottom..top): %s"
+                              % (mm, blind[mm][0], above, " ".join(x[0] for x in run)))
+                cur = obs.get(key)
+                if cur is None or (cur["ok"] and not ok):
+                    obs[key] = {"rule": "R-WS-ORDER", "key": key, "ok": ok, "site": where_site, "detail": detail, "n": 1}
+    return list(obs.values()), nruns
